@@ -328,3 +328,62 @@ Definition run_doc (x : sx) : sx :=
       end
   | _ => L [A 4%Z]
   end.
+
+(** * the document tie with a base description (Model/BuilderBase.v) *)
+From Oal Require Import BuilderBase.
+
+Fixpoint djson (x : sx) : option json :=
+  match x with
+  | L [A 0%Z] => Some JNull
+  | L [A 1%Z; b] => option_map JBool (dbool b)
+  | L [A 2%Z; A z] => Some (JInt z)
+  | L [A 3%Z; i] => option_map JFlt (dN i)
+  | L (A 4%Z :: t) => option_map JStr (dlist dN (L t))
+  | L (A 5%Z :: l) =>
+      option_map JArr
+        ((fix go (l : list sx) : option (list json) :=
+            match l with
+            | [] => Some []
+            | y :: r => match djson y, go r with Some j, Some js => Some (j :: js) | _, _ => None end
+            end) l)
+  | L (A 6%Z :: m) =>
+      option_map JObj
+        ((fix go (m : list sx) : option (list (list N * json)) :=
+            match m with
+            | [] => Some []
+            | L [L k; v] :: r =>
+                match dlist dN (L k), djson v, go r with
+                | Some k', Some j, Some js => Some ((k', j) :: js)
+                | _, _, _ => None
+                end
+            | _ => None
+            end) m)
+  | _ => None
+  end.
+
+(** input: (program strings names base), base the member list of the normalised base document as
+    a JSON object; output as [run_doc] *)
+Definition run_doc_base (x : sx) : sx :=
+  match x with
+  | L [p; ss; ns; b] =>
+      match dprog p, dlist dtext ss, dlist dtext ns, djson b with
+      | Some (P, rs), Some strs, Some names, Some (JObj base) =>
+          match eval_program false P FUEL rs with
+          | Ok (rels, table) =>
+              match document_with_base (fun i => nth (N.to_nat i) strs []) table names base rels with
+              | Some j => L [A 0%Z; ejson j]
+              | None => L [A 5%Z]
+              end
+          | Err e => L [A 1%Z; eN e]
+          | Panic q => L [A 2%Z; eN q]
+          | Fuel => L [A 3%Z]
+          end
+      | _, _, _, _ => L [A 4%Z]
+      end
+  | _ => L [A 4%Z]
+  end.
+
+Lemma djson_ejson_example :
+  djson (ejson (JObj [([112], JArr [JInt 3; JStr [97]; JBool true; JNull]); ([36], JObj [])])) =
+  Some (JObj [([112], JArr [JInt 3; JStr [97]; JBool true; JNull]); ([36], JObj [])]).
+Proof. reflexivity. Qed.
